@@ -435,6 +435,11 @@ SPECS["C15"] = {
          "what": "4 programs x breakpoint subsets x command sequences", "reach": ["finished"],
          "quick": {"params": {"CMDS": 4}, "unwind": 60, "wall_s": 900},
          "thorough": {"params": {"CMDS": 8}, "unwind": 60, "wall_s": 3000}},
+        {"name": "H3-suspensions", "pkg": "interpreter", "files": _C15, "fn": "VerifC15Suspensions",
+         "what": "8 programs (calls with further evaluation on the call line, calls in loops, nested and recursive calls, try) x all active-breakpoint subsets x one disabled breakpoint, resume-only driver: suspension line sequence equals the reference derived from an independent tracer",
+         "reach": ["compared"],
+         "quick": {"params": {"CMDS": 16}, "unwind": 60, "wall_s": 900},
+         "thorough": {"params": {"CMDS": 24}, "unwind": 60, "wall_s": 3000}},
     ],
     "assumptions": ["pre-emptions only at discovered racy sites", "deterministic schedule in the transparency harness"],
     "outside": ["telnet debug server and CLI", "sinks on several workers under debugging", "breakonstart/breakonerror flags"],
